@@ -222,7 +222,9 @@ def menu():
 
 CORE = ["circ.bind", "circ+op", "circ.to_dict", "circ.decompose", "sim.wavefunction_init", "sim.sample", "apply_to_qubits", "wrapped.bind", "gop.apply",
         "term+term", "sum+sum", "sum*sum", "sum_dup.simplify", "sum_dup**2", "sum.to_dict", "sum_dup.sparse", "term.circuit", "evolve.sum",
-        "meas.counts", "meas.expectation", "meas.represent2", "dist.ctor_tuple", "dist.sub", "dist.mmd", "wf.probabilities", "wf.bind", "wf.sample"]
+        "meas.counts", "meas.expectation", "meas.represent2", "dist.ctor_tuple", "dist.sub", "dist.mmd", "wf.probabilities", "wf.bind", "wf.sample",
+        "circ.inverse", "circ.controlled", "gate.matrix", "sum.simplify", "term*sum", "sum.hc", "sum.reverse", "meas.parities", "meas.distribution", "dist.nll", "wf.flip", "sim.exact_dist",
+        "circ_num.to_unitary"]
 
 _MENU = None
 
